@@ -3,6 +3,7 @@ package eng
 import (
 	"encoding/json"
 	"fmt"
+	"go/types"
 	"os"
 	"path/filepath"
 	"regexp"
@@ -10,6 +11,8 @@ import (
 	"strings"
 	"sync"
 	"time"
+
+	"golang.org/x/tools/go/ssa"
 )
 
 type CheckOpts struct {
@@ -240,12 +243,15 @@ func RunCheck(opts *CheckOpts) int {
 	if len(dirs) == 0 {
 		return fail("no contract files under %s", opts.RepoDir)
 	}
-	prog, err := Load(opts.RepoDir, dirs)
+	prog, err := Load(opts.RepoDir, []string{"./..."})
 	if err != nil {
 		return fail("load: %v", err)
 	}
 	if err := prog.LoadTrusted(filepath.Join(opts.VerifDir, "trusted")); err != nil {
 		return fail("trusted specs: %v", err)
+	}
+	if err := prog.ResolveImpls(); err != nil {
+		return fail("impl declarations: %v", err)
 	}
 	known, err := loadKnownFindings(filepath.Join(opts.VerifDir, "known-findings.txt"))
 	if err != nil {
@@ -287,6 +293,42 @@ func RunCheck(opts *CheckOpts) int {
 		r := &FnReport{Key: k, Contract: c}
 		reports = append(reports, r)
 		if fn == nil {
+			if iface, method, ok := prog.ifaceOfKey(k); ok {
+				// interface-level contract: refinement obligations for every implementation under contract
+				impls := prog.implementers(iface, method)
+				if len(impls) == 0 && !c.Trusted {
+					r.Err = "interface contract " + ShortKey(k) + " has no implementation under contract"
+					continue
+				}
+				for _, f := range impls {
+					ik := FuncKey(f)
+					rr := &FnReport{Key: ik + "~" + ShortKey(k), Contract: c}
+					reports = append(reports, rr)
+					rg := NewGen(prog, f, prog.Contracts[ik])
+					rg.prefix = ShortKey(ik) + "~refines"
+					func() {
+						defer func() {
+							if e := recover(); e != nil {
+								rr.Err = fmt.Sprintf("engine panic: %v", e)
+								if opts.Verbose {
+									panic(e)
+								}
+							}
+						}()
+						rg.RunRefine(c, prog.Contracts[ik])
+					}()
+					rr.Gen = rg
+					if rr.Err == "" && len(rg.BindErrs) > 0 {
+						rr.Err = "contract does not bind: " + strings.Join(rg.BindErrs, "; ")
+					}
+					if rr.Err != "" {
+						continue
+					}
+					rr.Obligations = rg.Obls
+					all = append(all, rg.Obls...)
+				}
+				continue
+			}
 			r.Err = "contract does not bind: function " + ShortKey(k) + " not found"
 			continue
 		}
@@ -718,4 +760,165 @@ func boundedOrEmpty() []any {
 		return []any{}
 	}
 	return boundedGlobal
+}
+
+// ifaceOfKey resolves "pkgpath.Type.Method" to an interface type, if it is one.
+func (p *Program) ifaceOfKey(key string) (*types.Named, string, bool) {
+	i := strings.LastIndex(key, ".")
+	if i < 0 {
+		return nil, "", false
+	}
+	method := key[i+1:]
+	rest := key[:i]
+	j := strings.LastIndex(rest, ".")
+	if j < 0 {
+		return nil, "", false
+	}
+	pkgPath, tname := rest[:j], rest[j+1:]
+	for _, pk := range p.Pkgs {
+		if pk.PkgPath != pkgPath {
+			continue
+		}
+		if tn, ok := pk.Types.Scope().Lookup(tname).(*types.TypeName); ok {
+			if n, ok := tn.Type().(*types.Named); ok {
+				if _, isI := n.Underlying().(*types.Interface); isI {
+					return n, method, true
+				}
+			}
+		}
+	}
+	return nil, "", false
+}
+
+// implementers lists (function, contract) pairs of methods implementing the interface method.
+func (p *Program) implementers(iface *types.Named, method string) []*ssa.Function {
+	it := iface.Underlying().(*types.Interface)
+	var out []*ssa.Function
+	var keys []string
+	for k := range p.Funcs {
+		keys = append(keys, k)
+	}
+	sort.Strings(keys)
+	for _, k := range keys {
+		f := p.Funcs[k]
+		if f.Name() != method || f.Signature.Recv() == nil || f.Parent() != nil {
+			continue
+		}
+		rt := f.Signature.Recv().Type()
+		if types.Implements(rt, it) || types.Implements(types.NewPointer(rt), it) {
+			if p.Contracts[k] != nil {
+				out = append(out, f)
+			}
+		}
+	}
+	return out
+}
+
+// RunRefine generates the refinement obligations of an implementation against the
+// interface-level contract: pre_iface ⇒ pre_impl, post_impl ⇒ post_iface, and the
+// implementation's frame inside the interface's.
+func (g *Gen) RunRefine(ic *Contract, implC *Contract) {
+	g.cfg = &CFG{Fn: g.Fn, Loops: map[*ssa.BasicBlock]*Loop{}}
+	g.collectDebug()
+	for pass := 1; pass <= 4; pass++ {
+		g.pass = pass
+		nU := len(g.uniOrder)
+		g.reset()
+		g.refineOnce(ic, implC)
+		if pass >= 2 && len(g.uniOrder) == nU {
+			break
+		}
+	}
+}
+
+func (g *Gen) refineOnce(ic *Contract, implC *Contract) {
+	fn := g.Fn
+	st := g.initState()
+	g.entry = st.clone()
+	g.results = resultNamesOf(fn.Signature, ic)
+	if len(fn.Blocks) > 0 {
+		g.curBlock = fn.Blocks[0]
+	}
+	// the interface contract names the receiver "recv" (or its own parameter list)
+	names := []string{"recv"}
+	sig := fn.Signature
+	for i := 0; i < sig.Params().Len(); i++ {
+		names = append(names, sig.Params().At(i).Name())
+	}
+	if len(ic.Params) > 0 {
+		copy(names, ic.Params)
+	}
+	var args []Val
+	for i, p := range fn.Params {
+		v := g.named(st, p.Name(), p.Type())
+		args = append(args, v)
+		if i < len(names) {
+			g.params[names[i]] = v
+		}
+		if i == 0 && v.K == VScalar {
+			g.assume(Ne(v.T, IntLit(0)))
+			g.assume(Eq(App("vp_dyntype", SInt, v.T), typeID(p.Type())))
+		}
+	}
+	sc := g.specCtx(st, st, nil)
+	for _, cl := range ic.Requires {
+		t, err := sc.boolTerm(cl.E)
+		if err != nil {
+			g.BindErrs = append(g.BindErrs, fmt.Sprintf("interface requires %q: %v", cl.Text, err))
+			continue
+		}
+		g.assume(t)
+	}
+	for _, cl := range ic.Assumes {
+		t, err := sc.boolTerm(cl.E)
+		if err != nil {
+			g.BindErrs = append(g.BindErrs, fmt.Sprintf("interface assume %q: %v", cl.Text, err))
+			continue
+		}
+		g.assume(t)
+		g.Assumed["assume "+cl.Text+" because "+cl.Why] = true
+	}
+	g.entry = st.clone()
+	g.entryDefs = len(g.Defs)
+	implKey := FuncKey(fn)
+	res := g.applyContract(st, implC, implKey, g.calleeNames(fn, sig, implC), args, sig, resultType(sig), fn.Pos(), true)
+	vars := map[string]Val{}
+	for i, n := range names {
+		if i < len(args) {
+			vars[n] = args[i]
+		}
+	}
+	if res.K == VTuple {
+		for i, n := range g.results {
+			if i < len(res.F) {
+				vars[n] = res.F[i]
+			}
+		}
+	} else if len(g.results) == 1 {
+		vars[g.results[0]] = res
+		vars["result"] = res
+	}
+	sc2 := g.specCtxVars(st, g.entry, vars)
+	saved := g.C
+	g.C = ic
+	for i, cl := range ic.Ensures {
+		t, err := sc2.boolTerm(cl.E)
+		if err != nil {
+			g.BindErrs = append(g.BindErrs, fmt.Sprintf("interface ensures %q: %v", cl.Text, err))
+			continue
+		}
+		g.obligeNamed(st, "refines", i, "interface ensures "+cl.Text, fn.Pos(), t)
+	}
+	if ic.Modifies != nil && !ic.Modifies.Star && !ic.Pure {
+		g.frameCheck(st, fn.Pos())
+	}
+	g.C = saved
+	g.curBlock = nil
+}
+
+func resultType(sig *types.Signature) types.Type {
+	if sig.Results().Len() == 1 {
+		return sig.Results().At(0).Type()
+	}
+	return sig.Results()
 }
